@@ -195,7 +195,7 @@ func runC03All(cfg c03Cfg) (violation, eventViolation, statsViolation string, ex
 					case 7:
 						v := newVal()
 						c.Compute(k, func(old int, found bool) (int, otter.ComputeOp) {
-							if found {
+							if found || old != 0 { // with found=false the function must get the zero value, not a dead entry's value
 								expose("Compute (as the old value)", k, old, now)
 							}
 							if v%3 == 0 {
